@@ -31,10 +31,10 @@ ASSUMPTIONS = ["the user callables handed to the models (F, its Jacobian, geomet
                "a CUQIarray 'carrying the model's domain geometry' carries the same geometry object, or an independently "
                "constructed equal one for the grid-based geometries"]
 REQUIRED_COUNTERS = {
-    "quick": {"forward_value_checked": 16000, "forward_wrap_checked": 18000, "callable_input_checked": 13000,
-              "samples_columns_checked": 5000, "gradient_value_checked": 4500, "fd_jacobian_columns": 4000,
-              "gradient_vs_fd_of_real_forward": 4500, "geometry_gradient_input_checked": 2500,
-              "gradient_refusal_observed": 13000, "dist_rename_checked": 40, "dist_forward_checked": 160},
+    "quick": {"forward_value_checked": 8000, "forward_wrap_checked": 9000, "callable_input_checked": 6500,
+              "samples_columns_checked": 2500, "gradient_value_checked": 2200, "fd_jacobian_columns": 2000,
+              "gradient_vs_fd_of_real_forward": 2200, "geometry_gradient_input_checked": 1300,
+              "gradient_refusal_observed": 6500, "dist_rename_checked": 20, "dist_forward_checked": 80},
     "thorough": {"forward_value_checked": 150000, "forward_wrap_checked": 160000, "callable_input_checked": 120000,
                  "samples_columns_checked": 45000, "gradient_value_checked": 50000, "fd_jacobian_columns": 50000,
                  "gradient_vs_fd_of_real_forward": 50000, "geometry_gradient_input_checked": 30000,
@@ -147,7 +147,7 @@ def _is2d(t):
 def cases(tier, seed):
     rnd = core.rng_for(seed, PROPERTY, "cases", tier)
     thorough = tier == "thorough"
-    reps = 2 if tier == "quick" else 12
+    reps = 1 if tier == "quick" else 12
     d1, d2 = _dom_templates()
     r1, r2 = _ran_templates()
     out = []
